@@ -9,7 +9,9 @@
 (*   pkg/util/sem.Semaphore                 a Weighted of size maxCapacity, pre-acquired down to *)
 (*        realCapacity.  SetMaxCount(n) = synchronous part (swap realCapacity under s.lock)      *)
 (*        + a goroutine ("tuner") that does Release(n-old) or Acquire(old-n) and then closes     *)
-(*        `done`.  Nothing orders the tuners of successive calls.                                *)
+(*        `done`.  Ordered = FALSE: nothing orders the tuners of successive calls (the code as   *)
+(*        pinned); Ordered = TRUE: each tuner first waits for the `done` of the previous call    *)
+(*        (the repaired code: s.lastDone).  A call with n = realCapacity is an ordinary call.    *)
 (*   pkg/util/limitlistener.LimitListener   Accept = acquire one slot, then Accept on the inner  *)
 (*        listener (slot given back on error / after the listener was closed);                   *)
 (*        limitListenerConn.Close releases exactly once (sync.Once).                             *)
@@ -174,14 +176,26 @@ AccAbort ==
     /\ UNCHANGED <<realCap, initCap, req, td, lclosed, backlog, open, eof, dialed, errs>>
 
 (* ---------------- Semaphore.SetMaxCount ---------------- *)
-(* synchronous part: old := realCapacity; realCapacity = n (under s.lock); go tuner *)
+(* synchronous part: old := realCapacity; realCapacity = n (under s.lock); go tuner.             *)
+(* n is ANY value: larger (grow), smaller but not below the usage (shrink that completes at       *)
+(* once), smaller than the usage (shrink that blocks until connections close) or EQUAL to the     *)
+(* current value - runtime.reload calls SetMaxConnection on every reload of the server, whatever  *)
+(* changed in its spec, so a resize to the value already configured is the common case.  Such a   *)
+(* call has nothing to adjust (td = 0) but it is a call like any other: it takes its place in     *)
+(* the request order (Ordered: its tuner waits for the previous one, the next one waits for it)   *)
+(* and counts as applied only when its own `done` closes.                                         *)
+(* The step record says what kind of call it is (d = n - old; `usage` = slots held by open         *)
+(* connections and by the acceptor; `pend` = earlier calls not completed yet) so that the          *)
+(* generators can cover every kind of call behind every kind of pending call.                      *)
 SetMax(n) ==
     /\ Len(req) < MaxResize
     /\ LET i == Len(req) + 1 IN
          /\ req' = Append(req, n)
          /\ td' = [td EXCEPT ![i] = n - realCap]
          /\ tst' = [tst EXCEPT ![i] = "spawned"]
-         /\ last' = [a |-> "setmax", i |-> i, n |-> n]
+         /\ last' = [a |-> "setmax", i |-> i, n |-> n, d |-> n - realCap,
+                     usage |-> open + (IF acc = "have" THEN 1 ELSE 0),
+                     pend |-> Cardinality({j \in 1..Len(req) : tst[j] # "done"})]
     /\ realCap' = n
     /\ UNCHANGED <<cur, waiters, initCap, acc, lclosed, backlog, open, eof, dialed, errs>>
 
@@ -249,9 +263,26 @@ Conserved == AllDone => Size - cur = realCap - open - Held
 ReusableWhenSettled == (AllDone /\ acc = "waiting") => open >= realCap
 HeldBack == (AllDone /\ open >= realCap) => acc # "have"
 
+(* with ordered tuners the changes complete in the order they were requested (also a same-value   *)
+(* call completes only after its predecessors): the newest fully applied cap is then simply the    *)
+(* cap of the last completed call                                                                  *)
+AppliedInOrder == Ordered => \A i \in 1..Len(req) : tst[i] = "done" => \A j \in 1..i : tst[j] = "done"
+
 (* action constraint for schedule generation: the inner Accept returns as soon as the acceptor has *)
 (* its slot and a client is queued (what a real listener does; keeps replays in step)             *)
 UrgentAccept == (acc = "have" /\ backlog > 0 /\ ~lclosed) => last'.a = "accept"
+
+(* action constraint for schedule generation, profile "burst of reloads on a busy server": cap   *)
+(* changes are requested only once the server has filled up to its cap with a client held back (the *)
+(* acceptor is queued on the semaphore), and once the first one has been requested the others       *)
+(* follow back to back, before anything else happens (no close, no tuner step in between).  What    *)
+(* comes after the burst - the order of the tuners, closes, further clients - is free.  Every        *)
+(* sequence of MaxResize values of Caps is equally likely: grow, shrink, shrink below the usage and  *)
+(* same-value calls in every order.                                                                 *)
+BurstAtCap ==
+    /\ (Len(req) = 0) => last'.a \in {"dial", "acq", "accept", "setmax"}      \* the server fills up first
+    /\ (Len(req') > Len(req)) => acc = "waiting"
+    /\ (Len(req) > 0 /\ Len(req) < MaxResize) => Len(req') > Len(req)
 
 (* action constraint for the "no overlapping resizes" configuration: the caller waits for `done` *)
 (* before it calls SetMaxCount again (what the repository's own test does)                       *)
